@@ -414,6 +414,27 @@ def check_shift_wrapper(rep, M: Metrics, pre: str = "") -> None:
         calls = [dataclasses.replace(calls[0], args=tuple(values(a) for a in calls[0].args))]
         if not ok:
             detail = f"the metric receives ({', '.join(str(__import__('opfcheck.ir', fromlist=['show']).show(a)) for a in calls[0].args)})"
+            # a recognisably wrong argument (a vector handed on unshifted, shifted by something else, the two exchanged) is a
+            # finding; an argument built by type / dtype / shape dispatch, scratch buffers or `out=` is a form these rules
+            # cannot evaluate (exit 2)
+            from .ir import subterms as _st
+            vals = calls[0].args
+            def dispatchy(v):
+                for u in _st(v):
+                    if u[0] == "sel":
+                        for c in _st(u[1]):
+                            if (c[0] == "attr" and c[2] in ("dtype", "ndim", "kind", "flags")) or (
+                                    c[0] == "call" and c[1] in (("builtin", "type"), ("builtin", "isinstance"), ("builtin", "hasattr"),
+                                                                ("builtin", "getattr"))):
+                                return True
+                    if u[0] in ("call", "alloc") and len(u) > 3 and isinstance(u[3], tuple) and any(
+                            isinstance(kv, tuple) and len(kv) == 2 and kv[0] == "out" for kv in u[3]):
+                        return True
+                return False
+            if any(dispatchy(v) for v in vals) and not calls[0].guards and len(rets) == 1 and rets[0].value == calls[0].value \
+                    and all(any(u in (("K", "EPSILON"),) for u in _st(v)) for v in vals):
+                raise AnalysisError("avoid_zero_division: the shifted arguments are built by type / dtype dispatch or through "
+                                    f"buffers ('{detail[:120]}'); which value reaches the metric cannot be read off - outside the analysable fragment")
     rep.fn(pre + "SHIFT-args", fi, "decorated metrics see (x + EPSILON, y + EPSILON)", ok, detail)
     eps = repo.constants.get("EPSILON")
     okv = isinstance(eps, float) and 1e-100 <= eps <= 1e-6
